@@ -12,6 +12,7 @@ import (
 	pkg "github.com/vektra/mockery/v3/internal"
 	"github.com/vektra/mockery/v3/internal/logging"
 	"github.com/vektra/mockery/v3/internal/stackerr"
+	"github.com/vektra/mockery/v3/internal/verifhook"
 
 	"github.com/chigopher/pathlib"
 	"github.com/rs/zerolog"
@@ -61,6 +62,7 @@ func NewRootCmd() (*cobra.Command, error) {
 
 func logFatalErr(ctx context.Context, err error) {
 	log := zerolog.Ctx(ctx)
+	verifhook.Emit("Exit", "code", 1, "err", err.Error())
 	log.Fatal().Err(err).Msg("app failed")
 }
 
@@ -157,6 +159,7 @@ func (i *InterfaceCollection) Append(ctx context.Context, iface *config.Interfac
 		return errors.New(msg)
 	}
 	i.interfaces = append(i.interfaces, iface)
+	verifhook.Emit("Collect", "file", collectionFilepath, "pkg", iface.Pkg.PkgPath, "iface", iface.Name, "struct", *iface.Config.StructName, "pkgname", *iface.Config.PkgName, "template", *iface.Config.Template)
 	return nil
 }
 
@@ -219,6 +222,7 @@ func (r *RootApp) Run() error {
 		return err
 	}
 	log.Info().Msg("Done parsing configured packages.")
+	verifhook.Emit("Parsed", "n", len(interfaces))
 	// maps the following:
 	// outputFilePath|fullyQualifiedInterfaceName|[]*pkg.Interface
 	// The reason why we need an interior map of fully qualified interface name
@@ -254,6 +258,7 @@ func (r *RootApp) Run() error {
 		if err != nil {
 			return err
 		}
+		verifhook.Emit("Select", "pkg", iface.Pkg.PkgPath, "iface", iface.Name, "file", iface.FileName, "gen", shouldGenerate)
 		if !shouldGenerate {
 			ifaceLog.Debug().Msg("config doesn't specify to generate this interface, skipping")
 			continue
@@ -297,6 +302,7 @@ func (r *RootApp) Run() error {
 	for outFilePath, interfacesInFile := range mockFileToInterfaces {
 		fileLog := log.With().Str("file", outFilePath).Logger()
 		fileCtx := fileLog.WithContext(ctx)
+		verifhook.Emit("FileBegin", "file", outFilePath, "n", len(interfacesInFile.interfaces))
 
 		fileLog.Debug().Int("interfaces-in-file-len", len(interfacesInFile.interfaces)).Msgf("%v", interfacesInFile)
 
@@ -329,25 +335,37 @@ func (r *RootApp) Run() error {
 			return err
 		}
 
+		verifhook.Emit("Generated", "file", outFilePath, "bytes", len(templateBytes))
 		outFile := pathlib.NewPath(outFilePath)
+		if err := verifhook.Fail("mkdir", outFilePath); err != nil {
+			return err
+		}
 		if err := outFile.Parent().MkdirAll(); err != nil {
 			log.Err(err).Msg("failed to mkdir parent directories of mock file")
 			return stackerr.NewStackErr(err)
 		}
 		fileLog.Info().Msg("Writing template to file")
+		if err := verifhook.Fail("stat", outFilePath); err != nil {
+			return err
+		}
 		outFileExists, err := outFile.Exists()
 		if err != nil {
 			fileLog.Err(err).Msg("can't determine if outfile exists")
 			return fmt.Errorf("determining if outfile exists: %w", err)
 		}
+		verifhook.Emit("Exists", "file", outFilePath, "exists", outFileExists, "force", *packageConfig.Config.ForceFileWrite)
 		if outFileExists && !*packageConfig.Config.ForceFileWrite {
 			fileLog.Error().Bool("force-file-write", *packageConfig.Config.ForceFileWrite).Msg("output file exists, can't write mocks")
 			return fmt.Errorf("outfile exists")
 		}
 
+		if err := verifhook.Fail("write", outFilePath); err != nil {
+			return err
+		}
 		if err := outFile.WriteFile(templateBytes); err != nil {
 			return stackerr.NewStackErr(err)
 		}
+		verifhook.Emit("Write", "file", outFilePath, "bytes", len(templateBytes))
 	}
 
 	// The loop above could exit early, so sometimes warnings won't be shown
@@ -356,6 +374,7 @@ func (r *RootApp) Run() error {
 	for packagePath := range missingMap {
 		for ifaceName := range missingMap[packagePath] {
 			foundMissing = true
+			verifhook.Emit("Missing", "pkg", packagePath, "iface", ifaceName)
 			log.Error().
 				Str(logging.LogKeyInterface, ifaceName).
 				Str(logging.LogKeyPackagePath, packagePath).
@@ -363,8 +382,10 @@ func (r *RootApp) Run() error {
 		}
 	}
 	if foundMissing {
+		verifhook.Emit("Exit", "code", 1, "err", "interface not found in source")
 		os.Exit(1)
 	}
 
+	verifhook.Emit("Exit", "code", 0)
 	return nil
 }
